@@ -1,6 +1,10 @@
 #include <Eigen/Dense>
 #include <nano/program/solver.h>
 #include <nano/program/util.h>
+#ifdef NANO_VERIF
+#include <nano/verif.h>
+#include <vector>
+#endif
 
 using namespace nano;
 using namespace nano::program;
@@ -278,12 +282,68 @@ solver_state_t solver_t::solve_with_inequality(const program_t& program, const v
     // update residuals
     program.update(state.m_x, state.m_u, state.m_v, miu, state);
 
+#ifdef NANO_VERIF
+    const auto verif_push = [](std::vector<double>& values, const auto& tensor)
+    { values.insert(values.end(), tensor.data(), tensor.data() + tensor.size()); };
+    {
+        std::vector<double> values;
+        values.push_back(static_cast<double>(n));
+        values.push_back(static_cast<double>(m));
+        values.push_back(static_cast<double>(p));
+        values.push_back(program.m_Q.size() > 0 ? 1.0 : 0.0);
+        values.push_back(program.m_mufx);
+        verif_push(values, program.m_Q);
+        verif_push(values, program.m_c);
+        verif_push(values, program.m_A);
+        verif_push(values, program.m_b);
+        verif_push(values, program.m_G);
+        verif_push(values, program.m_h);
+        verif_push(values, x0);
+        ::nano::verif::event_values(::nano::verif::ev_program_start, this, values.data(), static_cast<int>(values.size()));
+    }
+#endif
+
     // primal-dual interior-point solver...
     for (state.m_iters = 0; state.m_iters < max_iters; ++state.m_iters)
     {
         const auto prev_eta   = state.m_eta;
         const auto prev_rdual = state.m_rdual.lpNorm<2>();
         const auto prev_rprim = state.m_rprim.lpNorm<2>();
+
+#ifdef NANO_VERIF
+        std::vector<double> verif_before;
+        verif_push(verif_before, state.m_x);
+        verif_push(verif_before, state.m_u);
+        verif_push(verif_before, state.m_v);
+        verif_push(verif_before, state.m_rdual);
+        verif_push(verif_before, state.m_rcent);
+        verif_push(verif_before, state.m_rprim);
+        auto verif_s = std::vector<double>{0.0, 0.0, 0.0, 0.0, 0.0, 0.0}; // s0*smax, s1, s2, iters1, iters2, r0
+        const auto verif_emit = [&](const int exit_kind)
+        {
+            std::vector<double> values;
+            values.push_back(static_cast<double>(n));
+            values.push_back(static_cast<double>(m));
+            values.push_back(static_cast<double>(p));
+            values.push_back(static_cast<double>(exit_kind));
+            values.insert(values.end(), verif_s.begin(), verif_s.end());
+            values.push_back(miu);
+            values.push_back(alpha);
+            values.push_back(beta);
+            values.push_back(s0);
+            values.insert(values.end(), verif_before.begin(), verif_before.end());
+            verif_push(values, dx);
+            verif_push(values, du);
+            verif_push(values, dv);
+            verif_push(values, state.m_x);
+            verif_push(values, state.m_u);
+            verif_push(values, state.m_v);
+            values.push_back(state.m_eta);
+            values.push_back(state.residual());
+            values.push_back(static_cast<double>(static_cast<int>(state.m_status)));
+            ::nano::verif::event_values(::nano::verif::ev_program_iter, this, values.data(), static_cast<int>(values.size()));
+        };
+#endif
 
         // solve primal-dual linear system of equations to get (dx, du, dv)
         const auto Gxh = G * state.m_x - h;
@@ -301,12 +361,18 @@ solver_state_t solver_t::solve_with_inequality(const program_t& program, const v
         if (!std::isfinite(state.m_ldlt_rcond) || !dx.all_finite() || !dv.all_finite() || !du.all_finite())
         {
             done(program, state, epsilon, logger);
+#ifdef NANO_VERIF
+            verif_emit(1);
+#endif
             break;
         }
 
         // backtracking line-search: stage 1
         auto s    = s0 * make_smax(state.m_u, du);
         auto iter = tensor_size_t{0};
+#ifdef NANO_VERIF
+        verif_s[0] = s;
+#endif
         for (iter = 0; iter < max_lsearch_iters; ++iter)
         {
             if ((G * (state.m_x + s * dx) - h).maxCoeff() < 0.0)
@@ -318,9 +384,16 @@ solver_state_t solver_t::solve_with_inequality(const program_t& program, const v
                 s *= beta;
             }
         }
+#ifdef NANO_VERIF
+        verif_s[1] = s;
+        verif_s[3] = static_cast<double>(iter);
+#endif
         if (iter == max_lsearch_iters)
         {
             done(program, state, epsilon, logger);
+#ifdef NANO_VERIF
+            verif_emit(2);
+#endif
             break;
         }
 
@@ -338,6 +411,11 @@ solver_state_t solver_t::solve_with_inequality(const program_t& program, const v
                 s *= beta;
             }
         }
+#ifdef NANO_VERIF
+        verif_s[2] = s;
+        verif_s[4] = static_cast<double>(iter);
+        verif_s[5] = r0;
+#endif
         if (iter == max_lsearch_iters)
         {
             // NB: revert to previous state if the residual didn't improve!
@@ -346,6 +424,9 @@ solver_state_t solver_t::solve_with_inequality(const program_t& program, const v
                 program.update(state.m_x, state.m_u, state.m_v, miu, state);
             }
             done(program, state, epsilon, logger);
+#ifdef NANO_VERIF
+            verif_emit(3);
+#endif
             break;
         }
 
@@ -365,17 +446,26 @@ solver_state_t solver_t::solve_with_inequality(const program_t& program, const v
             // numerical instabilities
             state.m_status = solver_status::failed;
             logger.info("[program]: ", state, ",feasible=", program.feasible(state), ".\n");
+#ifdef NANO_VERIF
+            verif_emit(4);
+#endif
             break;
         }
         else if (std::max({prev_eta - curr_eta, prev_rdual - curr_rdual, prev_rprim - curr_rprim}) < epsilon0)
         {
             // very precise convergence detected, check global convergence criterion!
             done(program, state, epsilon, logger);
+#ifdef NANO_VERIF
+            verif_emit(5);
+#endif
             break;
         }
         else
         {
             logger.info("[program]: ", state, ",feasible=", program.feasible(state), ".\n");
+#ifdef NANO_VERIF
+            verif_emit(0);
+#endif
         }
     }
 
